@@ -142,7 +142,7 @@ def store_case(job, res):
         changed = sorted({l for l in (key_loc(k) for k in rec["changed"]) if l is not None})
         if kind == "construct":
             changed = None           # the new caller frames get their locations below
-        if rec.get("skipped") or kind in ("to_json", "reload"):
+        if rec.get("skipped") or kind in ("to_json", "reload", "use_other"):
             sops.append("(SFit %s)" % nat(0)); sobs.append((changed, 0)); continue
         if kind == "predict":
             o = loc["O:" + rec["dataset"]]
@@ -196,12 +196,52 @@ def store_case(job, res):
     return term, None
 
 
+# ------------------------------------------------------------------ several model objects in one process
+
+MCLS = {"Daily": "MDaily", "Billing": "MBilling", "Hourly": "MHourly"}
+_FITID = {}
+
+
+def fit_id(name):
+    return _FITID.setdefault(name, 1 + len(_FITID))
+
+
+def objects_case(job, res):
+    """only for histories whose object under test was fitted in the worker and used without a copy ("live")"""
+    fam = job["fam"]
+    if job["lineage"] != "live" or fam not in MCLS:
+        return None
+    ops = ["(WNew %s)" % MCLS[fam], "(WFit %s %s)" % (nat(0), zlit(fit_id(L.MODELS[(fam, job["profile"])]["base"])))]
+    exp = [[], []]
+    n_others = 0
+    for rec in res["trace"]:
+        kind = rec["op"][0]
+        if kind == "reload":
+            break                      # the object is replaced by one restored from its document
+        changed = ([0] if rec.get("js_changed") else []) + [k + 1 for k, _ in rec.get("others_changed", [])]
+        if kind == "fit_other" and "new_other" in rec:
+            ofam = rec["new_other"]["fam"]
+            if ofam not in MCLS:
+                return None
+            n_others += 1
+            ops += ["(WNew %s)" % MCLS[ofam], "(WFit %s %s)" % (nat(n_others), zlit(fit_id(rec["new_other"]["data"])))]
+            exp += [[], sorted(changed)]
+        elif kind == "use_other" and not rec.get("skipped"):
+            ops.append("(WPredict %s)" % nat(1 + rec["op"][1] % max(1, n_others)))
+            exp.append(sorted(changed))
+        elif kind == "predict":
+            ops.append("(WPredict %s)" % nat(0)); exp.append(sorted(changed))
+        else:
+            ops.append("(WStore %s)" % nat(0)); exp.append(sorted(changed))
+    return "(current_sharing, %s, %s)" % (coq_list(ops), coq_list([coq_list([nat(x) for x in e]) for e in exp]))
+
+
 # ------------------------------------------------------------------ driver
 
 def correspondence(run, jobs, results, flags):
     imports = ("From V Require Import Model.Gate Model.HourlyState Model.HourlyStateRun Model.Store Model.StoreRun "
-               "Generated.C02Gen.")
-    hterms, hkept, sterms, skept, fterms, fkept = [], [], [], [], [], []
+               "Model.Objects Model.ObjectsRun Generated.C02Gen.")
+    hterms, hkept, sterms, skept, fterms, fkept, oterms, okept = [], [], [], [], [], [], [], []
     for job, res in zip(jobs, results):
         case = {"fam": job["fam"], "profile": job["profile"], "lineage": job["lineage"], "ops": [list(map(str, o)) for o in job["ops"]]}
         if job["fam"] == "Hourly":
@@ -210,6 +250,9 @@ def correspondence(run, jobs, results, flags):
                 run.corr_failures.append({"stream": "hourly_state", "case": case, "model": why})
             else:
                 hterms.append(t); hkept.append((case, res))
+        t = objects_case(job, res)
+        if t is not None:
+            oterms.append(t); okept.append((case, res))
         t, why = store_case(job, res)
         if t is None:
             run.corr_failures.append({"stream": "store", "case": case, "model": why})
@@ -217,17 +260,19 @@ def correspondence(run, jobs, results, flags):
             sterms.append(t); skept.append((case, res))
         if job["fam"] in ("Daily", "Billing", "Hourly"):
             for rec in res["trace"]:
-                if rec["op"][0] == "fit_other" and rec.get("fit") == "Fitted":
+                ofam = rec.get("other_family", job["fam"])
+                if rec["op"][0] == "fit_other" and rec.get("fit") == "Fitted" and ofam in ("Daily", "Billing", "Hourly"):
                     poor = rec["model_dq"] > rec["data_dq_before"]
                     fterms.append("(%s, %s, %s, (%s, %s))" % (
-                        "current_fit_copies %s" % job["fam"], coq_bool(poor), nat(rec["data_dq_before"]),
+                        "current_fit_copies %s" % ofam, coq_bool(poor), nat(rec["data_dq_before"]),
                         nat(rec["data_dq"]), nat(rec["model_dq"])))
                     fkept.append((case, rec))
                     run.dist("fit of another meter", "poor fit" if poor else "acceptable fit")
     for stream, terms, kept, fn, ty in [
             ("hourly_state", hterms, hkept, "check_hourly", "(hcfg * hstate * list cop * list hobs)%type"),
             ("store", sterms, skept, "check_store", "(list (dclass * ccfg) * list cell * list sop * list sobs)%type"),
-            ("fit_lists", fterms, fkept, "check_fit_lists", "(bool * bool * nat * (nat * nat))%type")]:
+            ("fit_lists", fterms, fkept, "check_fit_lists", "(bool * bool * nat * (nat * nat))%type"),
+            ("objects", oterms, okept, "check_objects", "(list (mclass * option mclass) * list wop * list (list nat))%type")]:
         if not terms:
             continue
         bad = run.coq_cases(stream, imports, "", terms, fn, shard=25, case_type=ty)
@@ -239,6 +284,9 @@ def correspondence(run, jobs, results, flags):
             run.corr_failures.append({"stream": stream, "case": case, "term": terms[i][:3000],
                                       "impl": ([{k: v for k, v in r.items() if k in ("op", "changed", "pred", "hstate", "dataset", "alias")}
                                                 for r in res["trace"]] if isinstance(res, dict) and "trace" in res else res)})
+            if stream == "objects":
+                run.corr_failures[-1]["impl"] = [{k: v for k, v in r.items() if k in ("op", "js_changed", "others_changed", "new_other")}
+                                                 for r in res["trace"]]
             if stream == "hourly_state" and len(run.cov.setdefault("model_eval", [])) < 2:
                 run.cov["model_eval"].append(run.coq_eval(
                     imports, "", "let '(cfg, s0, ops, obs) := %s in map (fun x => (clusters (fst x), warnings (fst x), snd x)) (trace cfg s0 ops)"
